@@ -1,5 +1,6 @@
 import Mkdb.Proofs.Session
 import Mkdb.Proofs.SessionInv9
+import Mkdb.Proofs.DbNames1
 /-!
 # C17 — databases are isolated and survive any USE pattern
 
@@ -54,8 +55,8 @@ theorem C17_no_database_selected (s : Sess) (st : Stmt) (h : routed st = true) (
   | delete t w => simp [exec, onCurrent, hc]
   | select q => simp [exec, hc]
 
-/-- **C17.create_existing**: creating a database that exists (names compared in lower case) is an error
-that changes nothing. -/
+/-- **C17.create_existing**: creating a database that exists (names compared in lower case: `canon`,
+the model of Go's Unicode-aware `strings.ToLower`) is an error that changes nothing. -/
 theorem C17_create_existing (s : Sess) (name : Bytes) (hv : validDbName name = true)
     (hne : name.isEmpty = false) (h : (getDB s (canon name)).isSome = true) :
     exec s (.createDatabase name) = (s, .err "dbExists") := by
@@ -65,9 +66,11 @@ theorem C17_create_existing (s : Sess) (name : Bytes) (hv : validDbName name = t
 change nothing. -/
 theorem C17_empty_name_refused (s : Sess) :
     exec s (.createDatabase []) = (s, .err "noDbSelected") ∧ exec s (.use []) = (s, .err "noDbSelected") := by
-  constructor <;> simp [exec, validDbName]
+  have hv : validDbName [] = true := by decide
+  constructor <;> simp [exec, hv]
 
-/-- **C17.invalid_name_refused**: a name that is not one plain directory name (`.`, `..`, a path
+/-- **C17.invalid_name_refused**: a name whose lower-cased form (`canonBytes`: what Go's `checkDBName`
+checks, `strings.ToLower` of the name) is not one plain directory name (`.`, `..`, a path
 separator or NUL inside, more than 255 bytes) is refused by CREATE DATABASE and by USE with an error
 that changes nothing, whatever exists - no database appears under a different name, nothing is opened
 twice, nothing is written outside the data directory (the repaired defect: `CREATE DATABASE "a/b"`). -/
@@ -195,7 +198,79 @@ def created : List Stmt → List Out → List String
 
 /-- non-vacuity: `a/b`, `..` are refused, `plain` is a name -/
 example : validDbName [97, 47, 98] = false ∧ validDbName [46, 46] = false ∧ validDbName [112, 108, 97, 105, 110] = true := by
-  decide
+  decide +kernel
+
+/-! ### database names: identity and validity are those of the lower-cased name
+
+`canon` models Go's `strings.ToLower` (storage/file.go `checkDBName`, `makeDBDir`, `dbFilePath`,
+engine/session.go): the bytes are read as UTF-8 the way Go reads them (every byte that is part of no
+well-formed sequence is U+FFFD), every code point is mapped by `unicode.ToLower` - the table
+`Mkdb/Generated/Lower.lean`, regenerated from the Go library by tools/extract -, and encoded again. -/
+
+/-- **C17.lowering_is_the_generated_table**: the model's `unicode.ToLower` maps every code point the
+generated table lists to the listed image, moves no code point the table does not list, and every
+image is a fixed point (lowering twice is lowering once).  The table itself - that it is what the Go
+library computes - is trusted to the extractor. -/
+theorem C17_lowering_is_the_generated_table :
+    (∀ p ∈ Mkdb.Generated.lowerPairsList, lowerRune p.1 = p.2) ∧
+    (∀ r, lowerRune r ≠ r → (r, lowerRune r) ∈ Mkdb.Generated.lowerPairsList) ∧
+    (∀ r, lowerRune (lowerRune r) = lowerRune r) :=
+  ⟨lowerRune_listed, lowerRune_moved, lowerRune_idem⟩
+
+/-- **C17.canonical_name_is_its_own_canonical_name**: the bytes of the canonical name - the directory
+name, what SHOW DATABASES lists - are `canonBytes`, and naming a database by them names the same
+database: `canon` is idempotent on its own output.  (Go's decoder reads back what the UTF-8 encoder
+writes, and no image of `unicode.ToLower` is itself moved.) -/
+theorem C17_canonical_name_is_its_own_canonical_name (name : Bytes) :
+    (canon name).toUTF8.toList = canonBytes name ∧ canon (canon name).toUTF8.toList = canon name ∧
+    validDbName (canon name).toUTF8.toList = validDbName name :=
+  ⟨toUTF8_canon name, canon_idem name, validDbName_of_canon_eq (canon_idem name)⟩
+
+/-- **C17.same_lowering_same_database**: two spellings with the same lower-cased form are the same
+database name for CREATE DATABASE and USE - same outcome, same resulting session, in every session
+state: both valid or both not, both empty or both not, the same database found or missing. -/
+theorem C17_same_lowering_same_database (s : Sess) (a b : Bytes) (h : canon a = canon b) :
+    exec s (.createDatabase a) = exec s (.createDatabase b) ∧ exec s (.use a) = exec s (.use b) := by
+  have hv := validDbName_of_canon_eq h
+  have he := isEmpty_of_canon_eq h
+  constructor <;> simp only [exec, h, hv, he]
+
+/-- **C17.ascii_upper_case_is_the_same_database**: a name and its ASCII-upper-cased spelling (the
+letters a-z replaced by A-Z, every other byte - valid UTF-8 or not - kept) are the same database. -/
+theorem C17_ascii_upper_case_is_the_same_database (s : Sess) (name : Bytes) :
+    canon (name.map up8) = canon name ∧
+    exec s (.createDatabase (name.map up8)) = exec s (.createDatabase name) ∧
+    exec s (.use (name.map up8)) = exec s (.use name) :=
+  ⟨canon_map_up8 name, C17_same_lowering_same_database s _ _ (canon_map_up8 name)⟩
+
+/-- **C17.ascii_names_fold_bytewise**: on a pure-ASCII name the lower-cased form is the byte-wise
+folding of A-Z to a-z (the byte-wise path of `strings.ToLower`; what the model was before it
+followed Unicode): such a name is valid exactly if the folded bytes are one plain directory name. -/
+theorem C17_ascii_names_fold_bytewise (name : Bytes) (h : ∀ c ∈ name, c.toNat < 128) :
+    canonBytes name = name.map low8 :=
+  canonBytes_ascii name h
+
+/-- examples (kernel-evaluated; the sess harness runs the same names against the code): `É` and `é`
+are one database; the Kelvin sign lowers to `k`, `İ` to `i`; σ and ς, s and ſ stay apart; 127 × `Ⱥ` is
+254 bytes but 381 lowered: refused; 100 × the Kelvin sign is 300 bytes but 100 lowered: accepted, the
+database `kkk…k`; the byte FF alone is the database U+FFFD (EF BF BD), as FE is; after distinct
+prefixes it gives distinct databases; the overlong form C0 AF of `/` is no `/` but two U+FFFD; an
+encoded surrogate is three U+FFFD -/
+example :
+    canonBytes [0xC3, 0x89] = [0xC3, 0xA9] ∧ canonBytes [0xC3, 0xA9] = [0xC3, 0xA9] ∧
+    canonBytes [0xE2, 0x84, 0xAA] = [107] ∧ canonBytes [0xC4, 0xB0] = [105] ∧
+    canonBytes [0xCF, 0x83] ≠ canonBytes [0xCF, 0x82] ∧ canonBytes [115] ≠ canonBytes [0xC5, 0xBF] ∧
+    validDbName ((List.replicate 127 [0xC8, 0xBA]).flatten) = false ∧
+    validDbName ((List.replicate 85 [0xC8, 0xBA]).flatten) = true ∧
+    validDbName ((List.replicate 100 [0xE2, 0x84, 0xAA]).flatten) = true ∧
+    canonBytes ((List.replicate 100 [0xE2, 0x84, 0xAA]).flatten) = List.replicate 100 107 ∧
+    canonBytes [0xFF] = [0xEF, 0xBF, 0xBD] ∧ canonBytes [0xFE] = canonBytes [0xFF] ∧
+    canonBytes [0xEF, 0xBF, 0xBD] = canonBytes [0xFF] ∧
+    canonBytes [97, 0xFF] ≠ canonBytes [98, 0xFF] ∧ canonBytes [65, 0xFE] = canonBytes [97, 0xFF] ∧
+    canonBytes [0xC0, 0xAF] = [0xEF, 0xBF, 0xBD, 0xEF, 0xBF, 0xBD] ∧ validDbName [0xC0, 0xAF] = true ∧
+    canonBytes [0xED, 0xA0, 0x80] = canonBytes [0xFF, 0xFF, 0xFF] ∧
+    validDbName (List.replicate 85 0xFF) = true ∧ validDbName (List.replicate 86 0xFF) = false := by
+  decide +kernel
 
 theorem exec_create_fst (s : Sess) (n : Bytes) (h : (exec s (.createDatabase n)).2 ≠ .ok) :
     (exec s (.createDatabase n)).1 = s := by
@@ -443,7 +518,7 @@ example : SessOK {} [.createDatabase [100], .use [100], .delete tname none,
   sessOK_plain _ _ (fun st hst => by
     simp only [List.mem_cons, List.not_mem_nil, or_false] at hst
     rcases hst with rfl | rfl | rfl | rfl | rfl | rfl
-    all_goals first | exact trivial | exact tname_ne_sys | exact ⟨.inl ⟨[], rfl⟩, by decide +kernel⟩)
+    all_goals first | exact trivial | exact tname_ne_sys | exact ⟨by decide, by decide +kernel⟩)
 
 /-- non-vacuity: the session whose selected database is the one `CREATE DATABASE; CREATE TABLE t (a INT)`
 produces abstracts to the plain database with the empty table `t (a INT)`; `INSERT INTO t VALUES (5),
